@@ -89,6 +89,62 @@ def find_int(body, regex, what):
     return int(m.group(1), 0)
 
 
+def switch_groups(body, switch_regex, label_regex, resolve, what):
+    """Case labels of the first switch matching switch_regex inside `body`, at the nesting depth of that switch only,
+    grouped: consecutive labels with no statement between them share a body (fall-through group)."""
+    m = re.search(switch_regex, body)
+    if not m:
+        raise GenError("switch not found: " + what)
+    i = body.index("{", m.end() - 1) if body[m.end() - 1] != "{" else m.end() - 1
+    depth = 0
+    j = i
+    groups, cur = [], []
+    pos = i
+    n = len(body)
+    text_since_label = ""
+    while pos < n:
+        c = body[pos]
+        if c == "{":
+            depth += 1
+            if depth > 1:
+                text_since_label += c
+            pos += 1
+            continue
+        if c == "}":
+            depth -= 1
+            if depth == 0:
+                break
+            text_since_label += c
+            pos += 1
+            continue
+        if depth == 1:
+            lm = re.match(r"\s*(case\s+(" + label_regex + r")\s*:|default\s*:)", body[pos:])
+            if lm and (pos == 0 or not (body[pos - 1].isalnum() or body[pos - 1] == "_")):
+                if text_since_label.strip(" \t\r\n{};") != "" and cur:
+                    groups.append(cur)
+                    cur = []
+                elif text_since_label.strip(" \t\r\n{};") != "":
+                    pass
+                text_since_label = ""
+                if lm.group(2):
+                    cur.append(resolve(lm.group(2)))
+                else:
+                    if cur:
+                        groups.append(cur)
+                    cur = []
+                    groups.append(["default"])
+                pos += lm.end()
+                continue
+        text_since_label += c
+        pos += 1
+    if cur:
+        groups.append(cur)
+    groups = [g for g in groups if g != ["default"]]
+    if not groups:
+        raise GenError("no case labels: " + what)
+    return groups
+
+
 def gen():
     out = []
     w = out.append
@@ -159,6 +215,29 @@ def gen():
     w("Definition gds_real_bias : N := %d." % find_int(b, r"\(uint8_t\)\((\d+)\s*\+\s*exponent\)", "bias"))
     w("Definition gds_real_digits : N := %d." % find_int(b, r"pow\(16,\s*(\d+)\s*-\s*exponent\)", "digits"))
     w("Definition gds_real_mant_mask : N := %d." % find_int(b, r"mantissa\s*&\s*(0x[0-9A-Fa-f]+)", "mant mask"))
+    w("")
+    # --- dispatch structure of the GDSII readers: case labels of their record switches, grouped by shared body
+    gr = dict(enums["GdsiiRecord"])
+    def res_enum(lbl):
+        nm = lbl.split("::")[-1]
+        if nm not in gr:
+            raise GenError("unknown GdsiiRecord member " + nm)
+        return gr[nm]
+    def res_hex(lbl):
+        return int(lbl, 0)
+    def fmt(groups):
+        return "[" + "; ".join("[" + "; ".join(str(x) for x in g) + "]" for g in groups) + "]"
+    lib0 = strip_comments(read("src/library.cpp"))
+    b = func_body(lib0, r"Library\s+read_gds\s*\(")
+    w("Definition read_gds_case_groups : list (list N) := %s." % fmt(
+        switch_groups(b, r"switch\s*\(\s*\(GdsiiRecord\)\s*\(?buffer\[2\]\)?\s*\)\s*\{", r"GdsiiRecord::\w+", res_enum, "read_gds")))
+    b = func_body(lib0, r"ErrorCode\s+gds_info\s*\(")
+    w("Definition gds_info_case_groups : list (list N) := %s." % fmt(
+        switch_groups(b, r"switch\s*\(\s*\(GdsiiRecord\)\s*\(?buffer\[2\]\)?\s*\)\s*\{", r"GdsiiRecord::\w+", res_enum, "gds_info")))
+    raw0 = strip_comments(read("src/rawcell.cpp"))
+    b = func_body(raw0, r"Map<RawCell\*>\s+read_rawcells\s*\(")
+    w("Definition read_rawcells_case_groups : list (list N) := %s." % fmt(
+        switch_groups(b, r"switch\s*\(\s*buffer\[2\]\s*\)\s*\{", r"0x[0-9A-Fa-f]+|\d+|GdsiiRecord::\w+", lambda l: res_enum(l) if "::" in l else res_hex(l), "read_rawcells")))
     w("")
     # --- CTRAPEZOID table of read_oas
     lib = strip_comments(read("src/library.cpp"))
